@@ -1,4 +1,4 @@
-HOOK_COMMITS = []
+HOOK_COMMITS = []  # no in-repo hooks
 
 NOTES = (
     "Interpreter /venv/bin/python; every check imports toasty from /repo's working tree (editable install). "
@@ -9,7 +9,36 @@ NOTES = (
 
 _PENDING = "check not built yet at this commit (planned: DESIGN.md section 5)"
 
+_E1_NOTE = ("Trusted base: the virtual Queue/Event/Process/SoftFileLock semantics of vt/vmp.py (validated against real "
+            "multiprocessing by selftest/vmp_conformance.py), fork as deep copy of Process args, timeouts firing only on an "
+            "empty pipe, symmetry of identical workers (key soundness is checked on every state revisit). Bounds: <=3 workers, "
+            "pyramids of depth <=3 with <=21 tiles, <=3 input images.")
+
 CHECKS = {
+    "C01": dict(
+        engine="vmp+bex",
+        category="model_checking",
+        design_ref="5/C01",
+        technique="stateful exhaustive interleaving exploration of the real parallel walk under a virtual scheduler + exhaustive filter/apex enumeration vs reference quadtree",
+        text="Every interleaving of dispatcher, queue feeders, workers and receive timeouts of the real _walk_parallel/_mp_walk_worker is explored for 60+ small pyramids (generic, TOAST, a 51-filter family covering every live-children mask incl. accepted-but-childless tiles, sub-pyramid apexes, 1-3 workers) with an invariant monitor (exactly once, only live non-leaf tiles, parent after live children) and a backward-reachability termination analysis of the state graph; the serial walk is checked on every effective depth-2 filter (17^4) and every apex against a reference quadtree. The schedule quantifier cannot be reached by tests; exhaustive exploration of small configurations is the appropriate level.",
+        note=_E1_NOTE,
+    ),
+    "C03": dict(
+        engine="vmp",
+        category="model_checking",
+        design_ref="5/C03",
+        technique="stateful exhaustive interleaving exploration of the real producer/worker stages under a virtual scheduler",
+        text="The real visit_leaves, transform, multi-TAN and multi-WCS producer/worker code runs over the virtual multiprocessing layer; every interleaving of puts, feeder flushes, receives, receive timeouts, close/join_thread, the done flag and worker exits is explored per configuration; at every terminal state the processed item set must equal the serial set (itself compared with the reference quadtree), every item is delivered at most once with its own tile geometry, all workers have exited, no lock file remains; the termination analysis shows a returning continuation from every reachable state.",
+        note=_E1_NOTE,
+    ),
+    "C19": dict(
+        engine="vmp",
+        category="model_checking",
+        design_ref="5/C19",
+        technique="fault enumeration (every failing item) x stateful exhaustive interleaving exploration under a virtual scheduler",
+        text="For each of the five parallel stages and each single failing item, all interleavings are explored: every terminal state must have the stage raise to its caller, there is no deadlock, and from every reachable state a terminal state is reachable (no waiting forever). The serial reference behaviour (raises) is checked per configuration.",
+        note=_E1_NOTE + " Single fault per run; at least two workers.",
+    ),
     "C20": dict(
         engine="bex",
         category="exploration",
